@@ -19,6 +19,7 @@ import (
 	"github.com/go-logr/logr"
 	"github.com/samber/lo"
 	corev1 "k8s.io/api/core/v1"
+	metav1 "k8s.io/apimachinery/pkg/apis/meta/v1"
 	"k8s.io/apimachinery/pkg/types"
 	"sigs.k8s.io/controller-runtime/pkg/client"
 	crlog "sigs.k8s.io/controller-runtime/pkg/log"
@@ -36,7 +37,45 @@ import (
 	"verifharness/kit"
 )
 
-const kfRejected = "simulation-marks-scheduling-decision-for-rejected-pending-pods"
+const (
+	kfRejected = "simulation-marks-scheduling-decision-for-rejected-pending-pods"
+	kfInject   = "default-topology-spread-constraints-written-into-shared-pods"
+)
+
+// sharedPods are the pod objects that outlive one simulation: the candidates' reschedulable pods and the cached
+// CapacityBuffer virtual pods (virtualpods.Cache.GetAll hands them out without copying).
+func (w *world) sharedPods() []*corev1.Pod {
+	var out []*corev1.Pod
+	for _, cd := range w.cands {
+		out = append(out, field(cd, "reschedulablePods").Interface().([]*corev1.Pod)...)
+	}
+	m := field(w.vpc, "capacityBufferToPods")
+	it := m.MapRange()
+	for it.Next() {
+		out = append(out, it.Value().Interface().([]*corev1.Pod)...)
+	}
+	return out
+}
+
+// predictShared applies to a copy of the pod as it was before the call the one in-place write the scheduler is known
+// to make (Model.SInjectTSC).  Any other difference — in particular preferred node-affinity terms re-ordered in place,
+// which /repo commit bad8fc38d removed — is not predicted and therefore reported as a violation without a key.
+func (w *world) predictShared(pre *corev1.Pod) (pred *corev1.Pod, injected bool) {
+	pred = pre.DeepCopy()
+	if w.j.DefaultTSC != "" && len(pred.Spec.TopologySpreadConstraints) == 0 && pred.Labels["app"] == "c18" {
+		pred.Spec.TopologySpreadConstraints = []corev1.TopologySpreadConstraint{{MaxSkew: 1, TopologyKey: corev1.LabelTopologyZone,
+			WhenUnsatisfiable: corev1.UnsatisfiableConstraintAction(w.j.DefaultTSC), LabelSelector: &metav1.LabelSelector{MatchLabels: map[string]string{"app": "c18"}}}}
+		injected = true
+	}
+	return
+}
+
+func candRest(cd *disruption.Candidate) string {
+	wk := newWalker()
+	wk.skip = func(_ string, f reflect.StructField) bool { return f.Name == "reschedulablePods" }
+	wk.walk(reflect.ValueOf(cd), "")
+	return hashStr(wk.b.String())
+}
 
 type jCase struct {
 	Kind     string   `json:"kind"`
@@ -123,11 +162,28 @@ func runOp(c *kit.Ctx, w *world, idx int) {
 	w.faultVerb.Store("")
 	noPool := true
 	for _, p := range w.j.Pools {
-		if !p.NotReady && !p.Static {
+		if !p.NotReady && !p.Static && !p.Deleting {
 			noPool = false
 		}
 	}
 	pre := w.snap()
+	shared := w.sharedPods()
+	sharedPre := make([]*corev1.Pod, len(shared))
+	for i, p := range shared {
+		sharedPre[i] = p.DeepCopy()
+	}
+	restPre := map[string]string{}
+	for _, cd := range w.cands {
+		restPre[cd.Name()] = candRest(cd)
+	}
+	dbg := map[string]string{}
+	dbgDac := ""
+	if os.Getenv("C18_DEBUG") != "" {
+		dbgDac = renderOf(w.dac)
+		for _, cd := range w.cands {
+			dbg[cd.Name()] = renderOf(cd)
+		}
+	}
 	preNodes := map[string]map[string]string{}
 	preNom := map[string]int64{}
 	for pid, n := range w.origNodes() {
@@ -178,6 +234,29 @@ func runOp(c *kit.Ctx, w *world, idx int) {
 	now := w.clk.Now()
 	post := w.snap()
 	classes, details := diff(pre, post)
+	if os.Getenv("C18_DEBUG") != "" {
+		if a, b := dbgDac, renderOf(w.dac); a != b {
+			i := 0
+			for i < len(a) && i < len(b) && a[i] == b[i] {
+				i++
+			}
+			fmt.Fprintf(os.Stderr, "DEBUG dac differs at %d:\n  pre : ...%s\n  post: ...%s\n", i, a[max(0, i-300):min(len(a), i+300)], b[max(0, i-300):min(len(b), i+300)])
+		}
+		for _, cd := range w.cands {
+			a, b := dbg[cd.Name()], renderOf(cd)
+			if a != b {
+				i := 0
+				for i < len(a) && i < len(b) && a[i] == b[i] {
+					i++
+				}
+				lo0 := i - 200
+				if lo0 < 0 {
+					lo0 = 0
+				}
+				fmt.Fprintf(os.Stderr, "DEBUG op %d %s cand %s differs at %d:\n  pre : ...%s\n  post: ...%s\n", idx, op.Kind, cd.Name(), i, a[lo0:min(len(a), i+200)], b[lo0:min(len(b), i+200)])
+			}
+		}
+	}
 	nWrites := atomic.LoadInt64(w.writes) - writes0
 
 	// outcome class (what the model's control flow needs to know)
@@ -375,18 +454,65 @@ func runOp(c *kit.Ctx, w *world, idx int) {
 			jc.Err = jc.Err[:200]
 		}
 	}
-	// the one known deviation, recognised by its exact shape: a simulation whose only effect is the scheduling-decision
-	// bookkeeping of pending pods that fail validation
-	if op.Kind == "sim" && len(rejected) > 0 && len(classes) == 1 && classes[0] == clBook && nWrites == 0 {
-		only := true
-		for _, k := range w.podKeys {
-			if preBook[k] != w.book(k) && !lo.Contains(rejected, k) {
-				only = false
+	// The known deviations, each recognised by its exact shape; anything not fully explained by them carries no key.
+	//  (1) a simulation records a scheduling decision for pending pods that fail validation;
+	//  (2) default topology-spread constraints are written into a shared pod.
+	explained := nWrites == 0
+	sawRejected, sawInject := false, false
+	for i, p := range shared {
+		if renderOf(p) == renderOf(sharedPre[i]) {
+			continue
+		}
+		if pred, injected := w.predictShared(sharedPre[i]); injected && renderOf(pred) == renderOf(p) {
+			sawInject = true
+		} else {
+			explained = false
+			if a := sharedPre[i].Spec.Affinity; a != nil && a.NodeAffinity != nil && len(a.NodeAffinity.PreferredDuringSchedulingIgnoredDuringExecution) > 1 {
+				c.Count("shared-pod-changed-unexplained:has-several-preferred-terms")
 			}
 		}
-		if only {
+	}
+	for _, cd := range w.cands {
+		if restPre[cd.Name()] != candRest(cd) {
+			explained = false
+		}
+	}
+	for k := range post {
+		if pre[k] == post[k] || (strings.HasSuffix(k, cacheSuffix) && pre[k] == cacheUnset) {
+			continue
+		}
+		switch {
+		case strings.HasPrefix(k, clCands+"|"), k == clOther+"|virtualpods.Cache":
+			// accounted for pod by pod above
+		case strings.HasPrefix(k, clBook+"|") && op.Kind == "sim":
+			sawRejected = true
+		case op.Kind == "prov" && (strings.HasPrefix(k, clBook+"|") || strings.HasPrefix(k, clNominations+"|")):
+		default:
+			explained = false
+		}
+	}
+	if sawRejected {
+		if len(rejected) == 0 {
+			explained = false
+		}
+		for _, k := range w.podKeys {
+			if preBook[k] != w.book(k) && !lo.Contains(rejected, k) {
+				explained = false
+			}
+		}
+	}
+	if explained {
+		switch {
+		case sawInject:
+			jc.KfKey = kfInject
+		case sawRejected:
 			jc.KfKey = kfRejected
-			c.Count("known-finding-shape")
+		}
+		if sawInject {
+			c.Count("known-finding-shape:inject-default-spread")
+		}
+		if sawRejected {
+			c.Count("known-finding-shape:rejected-pods-marked")
 		}
 	}
 	for _, cl := range classes {
@@ -489,6 +615,7 @@ func countDims(c *kit.Ctx, j jWorld) {
 	dim(j.MaxITs > 0, "max-instance-types-small")
 	dim(j.MinValues == "BestEffort", "min-values-best-effort")
 	dim(j.Prefs == "Ignore", "preferences-ignored")
+	dim(j.DefaultTSC != "", "scheduler-config-default-spread-"+j.DefaultTSC)
 	dim(j.BatchMax > 0, "batch-max-duration-set")
 	dim(j.CPUReq > 0, "parallel-scheduler-workers")
 	noPool := true
@@ -502,13 +629,14 @@ func countDims(c *kit.Ctx, j jWorld) {
 		dim(p.MinValues > 0, "pool-min-values")
 		dim(p.Deleting, "pool-deleting")
 		dim(p.ConsAfter != "", "pool-consolidate-after-"+p.ConsAfter)
-		if !p.Static && !p.NotReady {
+		if !p.Static && !p.NotReady && !p.Deleting {
 			noPool = false
 		}
 	}
 	dim(noPool, "no-usable-pool")
 	for _, it := range j.Catalog {
 		dim(it.Huge, "type-hugepages")
+		dim(it.HugeBig, "type-hugepages-exceed-memory")
 		dim(len(it.Overrides) > 0, "type-override-offerings")
 		dim(it.Reserved > 0, "type-reserved-offering")
 	}
@@ -534,16 +662,21 @@ func countDims(c *kit.Ctx, j jWorld) {
 	}
 	for _, p := range pods {
 		dim(p.DRA == "claim", "pod-resource-claim")
+		dim(p.DRA == "allocated-shared", "pod-holds-shared-device-capacity")
+		dim(p.DRA == "allocated", "pod-holds-exclusive-device")
 		dim(p.DRA == "missing-claim", "pod-resource-claim-missing")
 		dim(p.TwoTerms, "pod-two-affinity-terms")
+		dim(p.PrefZone != "", "pod-preferred-node-terms-in-ascending-weight-order") // [1, 8]: an in-place sort would reorder them
 		dim(p.PrefAff, "pod-preferred-affinity")
 		dim(p.HostIP != "", "pod-host-ip")
 		dim(p.State != "", "pod-"+p.State)
 		dim(p.Owner != "", "pod-owner-"+p.Owner)
 		dim(p.Ephemeral, "pod-ephemeral-volume")
+		dim(p.Extras, "pod-emptydir-and-plain-port")
 		dim(p.UDP, "pod-host-port-udp")
 		dim(p.Invalid != "", "pod-invalid-"+p.Invalid)
 		dim(p.PVC == "pvc-bound" || p.PVC == "pvc-nosc" || p.PVC == "pvc-emptysc", "pod-"+p.PVC)
+		dim(p.PVC == "pvc-intree", "pod-pvc-intree")
 	}
 	for _, p := range j.Pending {
 		dim(p.Phase == "", "pending-pod-without-phase")
